@@ -17,6 +17,7 @@ import (
 	"github.com/thushan/olla/internal/core/ports"
 	"github.com/thushan/olla/internal/logger"
 	"github.com/thushan/olla/internal/router"
+	"github.com/thushan/olla/internal/util"
 )
 
 // SecurityAdapters provides middleware for security chain
@@ -32,29 +33,44 @@ func (s *SecurityAdapters) CreateChainMiddleware() func(http.Handler) http.Handl
 		withLogging := middleware.EnhancedLoggingMiddleware(s.logger)(next)
 		withAccessLogging := middleware.AccessLoggingMiddleware(s.logger)(withLogging)
 
-		return http.HandlerFunc(func(w http.ResponseWriter, r *http.Request) {
-			if s.securityChain != nil {
-				// Create security request from HTTP request
-				secReq := ports.SecurityRequest{
-					ClientID:      r.RemoteAddr, // This would normally be extracted better
-					Endpoint:      r.URL.Path,
-					Method:        r.Method,
-					BodySize:      r.ContentLength,
-					HeaderSize:    0, // Would need to calculate
-					Headers:       r.Header,
-					IsHealthCheck: r.URL.Path == "/internal/health",
+		// Apply each validator through its own middleware: those key rate limits by
+		// client IP (not ip:port), answer 429 / 413 and cap the request body, which a
+		// bare Validate call on the chain cannot do.
+		handler := withAccessLogging
+		if s.securityChain != nil {
+			validators := s.securityChain.GetValidators()
+			for i := len(validators) - 1; i >= 0; i-- {
+				if mw, ok := validators[i].(interface {
+					CreateMiddleware() func(http.Handler) http.Handler
+				}); ok {
+					handler = mw.CreateMiddleware()(handler)
+					continue
 				}
-
-				result, err := s.securityChain.Validate(r.Context(), secReq)
-				if err != nil || !result.Allowed {
-					// Write appropriate error response
-					http.Error(w, "Security validation failed", http.StatusForbidden)
-					return
-				}
+				// a validator without middleware of its own is still consulted
+				handler = validateWith(validators[i], handler)
 			}
-			withAccessLogging.ServeHTTP(w, r)
-		})
+		}
+		return handler
 	}
+}
+
+// validateWith guards next with a single validator's verdict
+func validateWith(validator ports.SecurityValidator, next http.Handler) http.Handler {
+	return http.HandlerFunc(func(w http.ResponseWriter, r *http.Request) {
+		result, err := validator.Validate(r.Context(), ports.SecurityRequest{
+			ClientID:      util.GetClientIP(r, false, nil),
+			Endpoint:      r.URL.Path,
+			Method:        r.Method,
+			BodySize:      r.ContentLength,
+			Headers:       r.Header,
+			IsHealthCheck: r.URL.Path == "/internal/health",
+		})
+		if err != nil || !result.Allowed {
+			http.Error(w, "Security validation failed", http.StatusForbidden)
+			return
+		}
+		next.ServeHTTP(w, r)
+	})
 }
 
 // CreateRateLimitMiddleware creates middleware that only applies rate limiting with enhanced logging
